@@ -1167,6 +1167,94 @@ def split_tuple_assignments(tree):
     return n
 
 
+# ------------------------------------------------------------------ P18 x = next((E for T in IT if C), D) is the loop it abbreviates
+def next_to_loop(tree):
+    """`x = next((E for T in IT if C), D)` -> `for T in IT: if C: x = E; break` / `else: x = D` (the loop variable must not be in use
+    elsewhere in the function, since a generator has its own scope and a for statement does not)"""
+    n = 0
+    for fn in [x for x in ast.walk(tree) if isinstance(x, ast.FunctionDef)]:
+        names_in_fn = {}
+        for x in ast.walk(fn):
+            if isinstance(x, ast.Name):
+                names_in_fn[x.id] = names_in_fn.get(x.id, 0) + 1
+        for owner in ast.walk(fn):
+            for _nm, blk in _blocks(owner):
+                for i, st in enumerate(list(blk)):
+                    if not (isinstance(st, ast.Assign) and len(st.targets) == 1 and isinstance(st.targets[0], ast.Name) and isinstance(st.value, ast.Call)
+                            and isinstance(st.value.func, ast.Name) and st.value.func.id == 'next' and len(st.value.args) == 2 and not st.value.keywords
+                            and isinstance(st.value.args[0], ast.GeneratorExp) and len(st.value.args[0].generators) == 1):
+                        continue
+                    g = st.value.args[0]
+                    gen = g.generators[0]
+                    if gen.is_async or not isinstance(gen.target, (ast.Name, ast.Tuple)):
+                        continue
+                    tnames = {x.id for x in ast.walk(gen.target) if isinstance(x, ast.Name)}
+                    inside = {}
+                    for x in ast.walk(g):
+                        if isinstance(x, ast.Name) and x.id in tnames:
+                            inside[x.id] = inside.get(x.id, 0) + 1
+                    if any(names_in_fn.get(t, 0) != inside.get(t, 0) for t in tnames) or st.targets[0].id in tnames:
+                        continue
+                    hit = [ast.Assign(targets=[copy.deepcopy(st.targets[0])], value=g.elt), ast.Break()]
+                    body = [ast.If(test=(gen.ifs[0] if len(gen.ifs) == 1 else ast.BoolOp(op=ast.And(), values=list(gen.ifs))), body=hit, orelse=[])] if gen.ifs else hit
+                    loop = ast.For(target=gen.target, iter=gen.iter, body=body,
+                                   orelse=[ast.Assign(targets=[copy.deepcopy(st.targets[0])], value=st.value.args[1])], type_comment=None)
+                    for t_ in ast.walk(loop):
+                        if isinstance(t_, ast.Name) and t_.id in tnames and t_ in ast.walk(gen.target):
+                            t_.ctx = ast.Store()
+                    ast.copy_location(loop, st)
+                    blk[blk.index(st)] = loop
+                    ast.fix_missing_locations(loop)
+                    n += 1
+    return n
+
+
+# ------------------------------------------------------------------ P19 a temporary that is copied back into the variable it stands for
+def rename_accumulators(tree):
+    """In one block: `t = E0` ... `c = t`, where t is used nowhere else in the function, c is neither read nor written between the two
+    statements (E0 itself may read c), is the same as working on c directly: t is renamed to c and the copy dropped."""
+    n = 0
+    for fn in [x for x in ast.walk(tree) if isinstance(x, ast.FunctionDef)]:
+        shared = {g for x in ast.walk(fn) if isinstance(x, (ast.Global, ast.Nonlocal)) for g in x.names}
+        for owner in ast.walk(fn):
+            for _nm, blk in _blocks(owner):
+                changed = True
+                while changed:
+                    changed = False
+                    for j, st in enumerate(blk):
+                        if not (isinstance(st, ast.Assign) and len(st.targets) == 1 and isinstance(st.targets[0], ast.Name) and isinstance(st.value, ast.Name)):
+                            continue
+                        c, t = st.targets[0].id, st.value.id
+                        if c == t or c in shared or t in shared:
+                            continue            # a global is published by the copy: building it in a local first is the point (C16)
+                        starts = [i for i in range(j) if isinstance(blk[i], ast.Assign) and len(blk[i].targets) == 1
+                                  and isinstance(blk[i].targets[0], ast.Name) and blk[i].targets[0].id == t]
+                        if not starts:
+                            continue
+                        i = starts[0]
+                        span = blk[i:j]
+                        all_t = [x for x in ast.walk(fn) if isinstance(x, ast.Name) and x.id == t]
+                        in_span = [x for s_ in span for x in ast.walk(s_) if isinstance(x, ast.Name) and x.id == t]
+                        if len(all_t) != len(in_span) + 1:
+                            continue            # t lives outside the span too
+                        if t in {a.arg for a in fn.args.args + fn.args.kwonlyargs}:
+                            continue
+                        c_in_span = [x for k_, s_ in enumerate(span) for x in ast.walk(s_ if k_ else ast.Expr(value=ast.Constant(value=0)))
+                                     if isinstance(x, ast.Name) and x.id == c]
+                        first_targets = [x for x in ast.walk(span[0].targets[0])]
+                        if c_in_span:
+                            continue
+                        if any(isinstance(x, (ast.FunctionDef, ast.Lambda, ast.Return, ast.Raise, ast.Break, ast.Continue)) for s_ in span for x in ast.walk(s_)):
+                            continue
+                        for x in in_span:
+                            x.id = c
+                        del blk[j]
+                        n += 1
+                        changed = True
+                        break
+    return n
+
+
 # ------------------------------------------------------------------ P13 a record class that did not exist then is the dict it replaced
 def records_to_dicts(tree, new_names):
     """P13.  `class C(NamedTuple)` with plain fields, new since the baseline, whose instances are only built (C(...), x._replace(...)),
@@ -1622,6 +1710,7 @@ def normalise_source(src, rel, baseline, cf=None, lookups=True, renames=None, fo
     if new_consts:
         changed += subst_new_constants(tree, {c for c in new_consts if '.' not in c})
     before = ast.dump(tree)
+    next_to_loop(tree)
     split_tuple_assignments(tree)
     global_aliases(tree)
     _GetattrConst().visit(tree)
@@ -1633,6 +1722,7 @@ def normalise_source(src, rel, baseline, cf=None, lookups=True, renames=None, fo
         get_found_to_membership(tree)
         get_default_to_if(tree)
         DictLiteralGet().visit(tree)
+    rename_accumulators(tree)
     if split:
         case_split_kinds(tree)
     if cf:
